@@ -272,6 +272,15 @@ type r8Other struct {
 	A string `@Ident`
 }
 
+type r8Self2 interface{ r8Self2() }
+type r8List2 []r8Self2
+type r8Leaf2 struct {
+	V string `@Ident`
+}
+
+func (r8List2) r8Self2() {}
+func (r8Leaf2) r8Self2() {}
+
 func TestVerif_C19C08_UnionMemberKinds(t *testing.T) {
 	res := &xResult{Check: "union member kinds", Property: "C19 C08", Exhaustive: true,
 		Bound: "unions with a Parseable member and with members registered by pointer, reached and not reached from the root; one of them left-recursive",
@@ -306,6 +315,14 @@ func TestVerif_C19C08_UnionMemberKinds(t *testing.T) {
 			return err
 		}, false},
 	}
+	cases = append(cases, struct {
+		name string
+		f    func() error
+		ok   bool
+	}{"a union with a member that is a slice of the union type itself", func() error {
+		_, err := participle.Build[r8Other](participle.Union[r8Self2](r8Leaf2{}, r8List2{}))
+		return err
+	}, false})
 	for _, c := range cases {
 		res.Evaluations++
 		res.Distinct++
